@@ -313,7 +313,7 @@ impl Check for TwoHandles {
         "C10"
     }
     fn budget(&self, tier: &str) -> usize {
-        if tier == "thorough" { 500_000 } else { 20_000 }
+        if tier == "thorough" { 800_000 } else { 20_000 }
     }
     fn gen_case(&self, seed: u64, _idx: usize, _tier: &str, _avoid: &[String]) -> Case {
         let mut rng = Rng::new(seed, "workload");
